@@ -267,7 +267,7 @@ func falsySetRuleSSA(r *Run, rule string) {
 		return
 	}
 	paths, ok := walkPaths(fn, nil, func(caller, callee *ssa.Function) bool {
-		return w.isCompilerMethod(callee) && !w.isNodeEvaluator(callee)
+		return w.isCompilerMethod(callee) && !w.coreModel().canonicalSet()[callee]
 	})
 	if !ok {
 		r.Lost(rule, "paths of the truthiness predicate")
